@@ -13,7 +13,7 @@
    holds for the patterns wick.py accepts: every label on one creator and one annihilator);
    every orbital count, every vector, any commutative ring. *)
 From Coq Require Import List Bool Arith Lia Ring Permutation.
-From FQE Require Import Car Fock TableThm Wick.
+From FQE Require Import Car Fock Sort TableThm Wick.
 Import ListNotations.
 
 Record sop := mksop { sorb : nat; sdag : bool; slab : nat }.
@@ -206,5 +206,26 @@ Proof.
     rewrite !Ul, !Um, !andb_true_r.
     rewrite <- (inst_relabel norb a m l (pre ++ post)) by congruence.
     destruct (a l); cbn [Bool.eqb]; ring.
+Qed.
+(* ---- exchanging two adjacent operators of the same kind (the final spin sort of wick.py): two creators, or two
+   annihilators, always anticommute - also when they sit on the same spin orbital, where both orders give zero *)
+Lemma anticomm_same_kind x y : odag x = odag y -> anticomm x y.
+Proof.
+  intros E. destruct (Nat.eq_dec (opos x) (opos y)) as [Ep|Ep]; [|apply anticomm_diff_pos; exact Ep].
+  intros d. destruct x as [p dx], y as [q dy]. cbn in E, Ep. subst q dy. unfold op_fn. cbn [odag opos].
+  destruct dx.
+  - rewrite cre_cre_same. reflexivity.
+  - rewrite ann_ann_same. reflexivity.
+Qed.
+
+Theorem sval_swap_same_kind norb L pre x y post V d : sdag x = sdag y ->
+  sval norb L (pre ++ [x; y] ++ post) V d = - sval norb L (pre ++ [y; x] ++ post) V d.
+Proof.
+  intros E. unfold sval. rewrite <- sumf_opp. apply sumf_ext. intros a _.
+  rewrite !map_app. cbn [map]. unfold Fock.act_string.
+  rewrite (coeff_lift_sneg R rO rI radd rmul rsub ropp Rth _
+             (string_fn (map (inst norb a) pre ++ [inst norb a y; inst norb a x] ++ map (inst norb a) post))).
+  - reflexivity.
+  - intros e. apply string_swap_adjacent. apply anticomm_same_kind. exact E.
 Qed.
 End SW.
